@@ -50,10 +50,32 @@ func sigTypeOf(id Ident) string {
 type pool struct {
 	raw    map[string][]byte // cid string -> bytes
 	isSig  map[string]bool
-	order  []string // insertion order
+	isEnc  map[string]bool // key (encryption) blocks: live in the separate /db/enc store, not part of the DAG
+	order  []string        // insertion order
 	forged map[string]bool
 	// label is a name that does not depend on cids (counter nonces make cids differ between runs of one case)
 	label map[string]string
+}
+
+// addEnc adds a key block.
+func (p *pool) addEnc(c cid.Cid, raw []byte, forged bool, label string) {
+	if _, ok := p.raw[c.String()]; ok {
+		return
+	}
+	p.add(c, raw, false, forged, label)
+	p.isEnc[c.String()] = true
+}
+
+func encodeEnc(e *coreblock.Encryption) (cid.Cid, []byte) {
+	raw, err := e.Marshal()
+	if err != nil {
+		hx.Harnessf("marshal key block: %v", err)
+	}
+	l, err := coreblock.GetLinkFromNode(e.GenerateNode())
+	if err != nil {
+		hx.Harnessf("link of key block: %v", err)
+	}
+	return l.Cid, raw
 }
 
 // byName lists the pool's cids ordered by their run-independent names (unique by construction).
@@ -78,7 +100,7 @@ func (p *pool) name(k string) string {
 }
 
 func newPool() *pool {
-	return &pool{raw: map[string][]byte{}, isSig: map[string]bool{}, forged: map[string]bool{}, label: map[string]string{}}
+	return &pool{raw: map[string][]byte{}, isSig: map[string]bool{}, isEnc: map[string]bool{}, forged: map[string]bool{}, label: map[string]string{}}
 }
 
 func (p *pool) add(c cid.Cid, raw []byte, isSig, forged bool, label string) {
@@ -316,7 +338,12 @@ const (
 	kSigSwap       = "sig-swap-other-commit"
 	kSigResignKeep = "sig-resign-other-key-keep-header"
 	kSigOverLinked = "sig-over-bytes-with-signature-link"
+	kEncDrop       = "enc-link-drop"
+	kEncAdd        = "enc-link-add"
+	kEncReplace    = "enc-link-replace"
 )
+
+func isEncKind(k string) bool { return len(k) > 4 && k[:4] == "enc-" }
 
 func isSigKind(k string) bool { return len(k) > 4 && k[:4] == "sig-" }
 
@@ -343,6 +370,11 @@ func applicable(b *coreblock.Block) []string {
 	}
 	if d.DocCompositeDelta != nil || d.IsCollection() {
 		out = append(out, kLinkAdd)
+	}
+	if b.Encryption != nil {
+		out = append(out, kEncDrop, kEncReplace, kEncDrop, kEncReplace, kEncDrop, kEncReplace)
+	} else {
+		out = append(out, kEncAdd, kEncAdd)
 	}
 	out = append(out, kSigValueFlip, kSigValueTrunc, kSigIdentOther, kSigIdentJunk, kSigTypeSwap, kSigSwap, kSigResignKeep, kSigOverLinked)
 	return out
@@ -388,7 +420,7 @@ func mutString(s string, arg int) string {
 func (p *pool) candidates(exclude map[string]bool, pred func(*coreblock.Block) bool) []string {
 	out := []string{}
 	for _, k := range p.byName() {
-		if p.isSig[k] || p.forged[k] || exclude[k] {
+		if p.isSig[k] || p.isEnc[k] || p.forged[k] || exclude[k] {
 			continue
 		}
 		if pred == nil || pred(p.block(k)) {
@@ -568,6 +600,36 @@ func (p *pool) tamperBlock(target string, kind string, arg int, otherDocIDs []st
 		i := arg % len(ls)
 		ls[i] = coreblock.NewDAGLink(mutString(ls[i].Name, arg/3), ls[i].Link)
 		b.Links = ls
+
+	// ---- encryption link: delta, heads and links stay, the link to the key block changes
+	case kEncDrop:
+		b.Encryption = nil
+	case kEncAdd, kEncReplace:
+		cur := ""
+		if b.Encryption != nil {
+			cur = b.Encryption.Cid.String()
+		}
+		// the key block of another document / field, if the history has one; else one the attacker makes up
+		cands := []string{}
+		for _, k := range p.byName() {
+			if p.isEnc[k] && !p.forged[k] && k != cur {
+				cands = append(cands, k)
+			}
+		}
+		var pick cid.Cid
+		if len(cands) > 0 && arg%4 != 3 {
+			pick = mustCid(cands[arg%len(cands)])
+		} else {
+			key := make([]byte, 32)
+			for i := range key {
+				key[i] = byte(arg + i)
+			}
+			ec, eraw := encodeEnc(&coreblock.Encryption{DocID: b.Delta.GetDocID(), Key: key})
+			p.addEnc(ec, eraw, true, fmt.Sprintf("attacker-key-block-%d", arg))
+			pick = ec
+		}
+		l := cidlink.Link{Cid: pick}
+		b.Encryption = &l
 
 	// ---- signature block mutations: the block's content stays, its signature link is re-pointed
 	case kSigValueFlip, kSigValueTrunc, kSigIdentOther, kSigIdentJunk, kSigTypeSwap, kSigResignKeep, kSigOverLinked:
